@@ -986,6 +986,18 @@ class StateNode(Generic[TContext, TEvent]):
                     f"object/dict (or a list of them)."
                 )
 
+            # 🛡️ `src` is looked up in `MachineLogic.services`: it must be
+            #    hashable (a name, or a machine). A list or a mapping raised a
+            #    raw "unhashable type" when the state was entered.
+            try:
+                hash(i_config.get("src"))
+            except TypeError:
+                raise InvalidConfigError(
+                    f"State '{self.id}' has an 'invoke' whose 'src' is of "
+                    f"type '{type(i_config.get('src')).__name__}'. Expected "
+                    "the name of a service."
+                ) from None
+
             # The invoke ID defaults to the state's ID if not provided.
             invoke_id = i_config.get("id", self.id)
 
